@@ -281,8 +281,170 @@ def rule_e2(repo, col):
     col.floor("E2.api_execute_sites", nsites, 3)
 
 
+def rule_e4(repo, col):
+    from .. import arith
+    from ..tables import cpython
+
+    rows, final = arith.table(repo)
+    col.floor("E4.arithmetic_rows", len(final), 55)
+    required = {}
+    for key, row in sorted(final.items()):
+        for tag in arith.impl_ops(row):
+            ex = cpython.exc_of_tag(tag)
+            if ex is None:
+                raise AnalysisError("arithmetic implementation %s/%d uses %s, which is not in the CPython semantics table" % (key[0], key[1], tag))
+            for e in ex:
+                required.setdefault(e, "%s/%d (%s)" % (key[0], key[1], tag))
+    f = repo.func("problog.logic", "compute_function")
+    m = f.module
+    ef = ExcFlow(repo)
+    # the dispatch call: a call of a local variable bound from _arithmetic_functions.get(...)
+    disp = None
+    for n in walk_no_nested(f.node):
+        if isinstance(n, ast.Call) and isinstance(n.func, ast.Name) and any(isinstance(a, ast.Starred) for a in n.args):
+            disp = n
+    if disp is None:
+        raise AnalysisError("compute_function: dispatch call function(*values) not found")
+    pkg_arith = repo.cls("problog.logic", "ArithmeticError")
+    for e in sorted(required):
+        h = ef.caught_by(m, disp, e)
+        if h is None:
+            col.fail("E4", m, disp, "the arithmetic dispatcher calls implementations that raise %s (e.g. %s) but no handler around the call converts it: "
+                     "the user sees a raw %s instead of a ProbLog ArithmeticError" % (e, required[e], e),
+                     construct="%s: handler for %s" % (norm(disp), e))
+            continue
+        # the handler must raise the package's ArithmeticError (a ProbLogError)
+        conv = [r for r in ast.walk(h) if isinstance(r, ast.Raise) and r.exc is not None]
+        okc = bool(conv) and all(ef.exc_class_of(m, r.exc) is pkg_arith or (
+            isinstance(ef.exc_class_of(m, r.exc), ClassInfo) and repo.is_subclass(ef.exc_class_of(m, r.exc), "problog.errors", "ProbLogError")) for r in conv)
+        col.decide("E4", m, disp, okc, "%s is converted to a ProbLog error" % e,
+                   "the handler for %s does not raise a ProbLogError" % e, construct="%s: handler for %s" % (norm(disp), e))
+    # EvalBuiltIn.__call__ catches the class compute_function converts to
+    evb = repo.func("problog.eval_nodes", "EvalBuiltIn.__call__")
+    nc = _call_of_attr(evb, "node")
+    if nc is None:
+        raise AnalysisError("EvalBuiltIn.__call__: self.node(...) not found")
+    h = ef.caught_by(evb.module, nc, pkg_arith)
+    col.decide("E4", evb.module, nc, h is not None, "EvalBuiltIn.__call__ adds the source location to the package ArithmeticError",
+               "EvalBuiltIn.__call__ no longer catches problog.logic.ArithmeticError (name resolved through the import table): arithmetic errors lose their location / a builtin exception class is caught instead")
+    if h is not None:
+        for r in ast.walk(h):
+            if isinstance(r, ast.Raise) and r.exc is not None and isinstance(r.exc, ast.Call):
+                c = ef.exc_class_of(evb.module, r.exc)
+                col.decide("E4", evb.module, r, isinstance(c, ClassInfo) and repo.is_subclass(c, "problog.errors", "ProbLogError"),
+                           "re-raised as a ProbLogError", "EvalBuiltIn.__call__ re-raises a non-ProbLog class")
+
+
+USER_FACING_NOTE = "registered builtins (+ nested defs), all of parser.py, *Factory classes, ClauseDB compile/add methods, and module-level helpers they call by bare name"
+
+E3_TABLE = {
+    # (module, function, normalised raise) -> reason
+    ("problog.parser", "PrologParser.next_token", "RuntimeError"): "dispatch default: every entry of the action tables is a method returning a tuple (checked by C17/T1)",
+    ("problog.pypl", "pl2py", "ValueError"): "type-dispatch default: engine terms are Constant, Term or int variables; None is replaced by negative ints before a body goal runs (eval_clause); no reaching input could be constructed",
+    ("problog.pypl", "py2pl", "ValueError"): "type-dispatch default on Python values; in the user-facing closure it is only reached through list2term on values produced by the package itself",
+}
+
+
+def _user_facing_functions(repo, cg):
+    out = []
+    impls = bi.implementations(repo)
+    for r in impls.values():
+        out.append(r.func)
+    pm = repo.module("problog.parser")
+    for f in pm.functions.values():
+        out.append(f)
+    for c in pm.classes.values():
+        out.extend(c.methods.values())
+    prog = repo.module("problog.program")
+    for c in prog.classes.values():
+        if c.name.endswith("Factory"):
+            out.extend(c.methods.values())
+    cdb = repo.cls("problog.clausedb", "ClauseDB")
+    for name, f in cdb.methods.items():
+        if name.startswith(("_compile", "add_", "_add_", "use_module", "_create_")):
+            out.append(f)
+    # nested defs
+    more = []
+    for f in out:
+        more.extend(cg.nested_functions(f).values())
+    out.extend(more)
+    # module-level helpers called by bare name (closure, module-level functions only)
+    seen = {id(f.node) for f in out}
+    work = list(out)
+    while work:
+        f = work.pop()
+        for c in cg.calls_in(f):
+            if not isinstance(c.func, ast.Name):
+                continue
+            for g in cg.resolve(f, c):
+                if g.cls is None and g.outer is None and id(g.node) not in seen:
+                    seen.add(id(g.node))
+                    out.append(g)
+                    work.append(g)
+    return out
+
+
+def rule_e3(repo, col):
+    from .. import modes
+
+    cg = CallGraph(repo)
+    ef = ExcFlow(repo, cg)
+    dead = modes.dead_statements(repo)
+    funcs = _user_facing_functions(repo, cg)
+    col.floor("E3.user_facing_functions", len(funcs), 250)
+    n = 0
+    # methods never called anywhere in the package are not on a user path
+    called_attrs = set()
+    for m in repo.modules.values():
+        for node in ast.walk(m.tree):
+            if isinstance(node, ast.Call):
+                if isinstance(node.func, ast.Attribute):
+                    called_attrs.add(node.func.attr)
+                elif isinstance(node.func, ast.Name):
+                    called_attrs.add(node.func.id)
+            elif isinstance(node, ast.Attribute):
+                called_attrs.add(node.attr)
+    for f in funcs:
+        m = f.module
+        for r in walk_no_nested(f.node):
+            if not isinstance(r, ast.Raise) or r.exc is None:
+                continue
+            c = ef.exc_class_of(m, r.exc)
+            if isinstance(c, ClassInfo):
+                if repo.is_subclass(c, "problog.errors", "ProbLogError"):
+                    continue
+                if c.name in ("UnifyError", "UnknownClauseInternal") or c.name in EXCLUDED_INTERNAL:
+                    continue  # decided by E2
+            if c is None and isinstance(r.exc, ast.Name):
+                h = ef.enclosing_handler(m, r)
+                if h is not None and h.name == r.exc.id:
+                    continue  # re-raise of a caught exception object
+            n += 1
+            cname = c.name if isinstance(c, ClassInfo) else (c or norm(r.exc))
+            if id(r) in dead:
+                col.ok("E3", m, r, "dead: %s" % dead[id(r)])
+                continue
+            if c is not None and ef.caught_by(m, r, c) is not None:
+                col.ok("E3", m, r, "caught locally")
+                continue
+            key = (m.name, f.qualname, cname)
+            if key in E3_TABLE:
+                col.ok("E3", m, r, "table: %s" % E3_TABLE[key])
+                continue
+            if f.cls is not None and f.name not in called_attrs:
+                col.ok("E3", m, r, "method %s is referenced nowhere in the package (not on a user path)" % f.qualname)
+                continue
+            col.fail("E3", m, r, "user-facing function %s raises %s, which is not a ProbLogError: a program text that reaches this line crashes inference "
+                     "with an internal Python exception" % (f.qualname, cname))
+    col.floor("E3.non_problog_raises_examined", n, 4)
+
+
 def run(repo, col):
     col.rule("E1", "import resolution")
     col.rule("E2", "containment of internal control exceptions (UnifyError, UnknownClauseInternal)")
+    col.rule("E3", "no explicit non-ProbLog raise in user-facing functions (%s)" % USER_FACING_NOTE)
+    col.rule("E4", "handler coverage of the arithmetic dispatcher against the CPython exception table")
     rule_e1(repo, col)
     rule_e2(repo, col)
+    rule_e3(repo, col)
+    rule_e4(repo, col)
